@@ -121,7 +121,23 @@ def _generate(rng, tier, seed):
         cases.append(gen_coll_case(rng, f"c05_{seed}_{k}", big=(k % 25 == 24)))
     for k in range(n // 3):
         cases.append(gen_window_case(rng, f"c05_{seed}_w{k}"))
+    cases.append(f32_witness(f"c05_{seed}_witnessF32"))
     return cases
+
+
+MECH_F32 = "dynamic-list-delta-drops-sibling-after-child-renotifies"
+
+
+def f32_witness(name):
+    """Constructed witness of the known finding F32 (reported by the round-6 C05 agent as a side remark): on a dynamic list an element
+    that already ticked in the cycle, is invalidated and written again in the SAME cycle notifies the list a second time; re-appending
+    its entry corrupts the list's ring of modified elements and the per-tick delta drops the other elements written in that cycle."""
+    from .prog import Case, S
+    c = Case(name, 0, 6)
+    c.cscripts[1] = ["0|[0]=1,[1]=2,[2]=3", "1|[1]=10,[0]=10,[1]i,[1]=11", "3|[2]=5"]
+    c.graphs["main"] = [S("d", "csrc", shape="dl", uid=1), S("", "cmirror", "d", uid=10)]
+    c.meta.update(sources=[{"uid": 1, "shape": "dl", "mirrors": [10]}], witness="f32")
+    return c
 
 
 def check_node(node, d, t, V, path, prev_value, C):
@@ -273,6 +289,13 @@ def check(case, tr):
                     elif len(wl[t]) >= 2:
                         cancelling += 1
                 prev = node.value()
+    if case.meta.get("witness") == "f32":
+        # only the known shape is classified: the list's own delta misses an element that ticked (its children's flags are right)
+        hits = [m for m in V if "per-tick delta lists indices" in m]
+        V = [m for m in V if m not in hits]
+        for m in hits[:1]:
+            res.violations.append(Violation("an element of a dynamic list that ticked, was invalidated and written again in one cycle makes the "
+                                            "list's per-tick delta drop the other elements written in that cycle: " + m, MECH_F32))
     for msg in V[:6]:
         res.violations.append(Violation(msg))
     whole = [op for sc in writes.values() for _, ops in sc for op in ops if ":" in op]
